@@ -54,9 +54,13 @@ def decMatrix (s : String) : Option (Nat × List Float) :=
     if cells.length == n * n then some (n, cells) else none
   | _ => none
 
+/-- equal up to rounding: same class (NaN / ±Inf), or relative difference ≤ 1e-9, or — for values that are zero up
+to the absolute rounding noise of `log(1 - x)` near `x = 0` (about 1e-16) — absolute difference ≤ 1e-12 -/
 def approx (a b : Float) : Bool :=
   (a.isNaN && b.isNaN) || a == b ||
-    (!(a.isNaN) && !(b.isNaN) && Float.abs (a - b) ≤ 1e-9 * (if Float.abs a > Float.abs b then Float.abs a else Float.abs b))
+    (!(a.isNaN) && !(b.isNaN) &&
+      (Float.abs (a - b) ≤ 1e-9 * (if Float.abs a > Float.abs b then Float.abs a else Float.abs b) ||
+       Float.abs (a - b) ≤ 1e-12))
 
 def cellAt (m : Nat × List Float) (i j : Nat) : Float := m.2.getD (i * m.1 + j) 0.0
 
@@ -224,20 +228,22 @@ def handle : Handler := fun op args impl =>
     let n ← n.toNat?
     let r ← decInts ranges
     -- the producer of DistMatrix: range mode iff the four bounds are >= 0
-    let jobs : Option (List (Nat × Nat)) :=
+    let jobs : Option (Option (List (Nat × Nat))) :=
       match r with
       | [a, b, c, d] =>
         if a ≥ 0 && b ≥ 0 && c ≥ 0 && d ≥ 0 then
           let b := if b.toNat ≥ n then n - 1 else b.toNat
           let d := if d.toNat ≥ n then n - 1 else d.toNat
-          if a.toNat > b || c.toNat > d then none else some (rangeJobs a.toNat b c.toNat d)
-        else some (halfJobs n)
-      | _ => some (halfJobs n)
+          if a.toNat > b || c.toNat > d then some none
+          else (rangeJobsFor Gen.Facts.rangeSendGuard a.toNat b c.toNat d).map some
+        else some (some (halfJobs n))
+      | _ => some (some (halfJobs n))
     let enc (js : List (Nat × Nat)) : String :=
       if js.isEmpty then "_" else ",".intercalate (js.map fun p => toString p.1 ++ "-" ++ toString p.2)
     match jobs with
-    | none => some ⟨"err", "na"⟩
-    | some js =>
+    | none => some ⟨"unsupported-guard", "na"⟩
+    | some none => some ⟨"err", "na"⟩
+    | some (some js) =>
       -- with one worker the evaluation order is the producer's order; otherwise compare as multisets
       let model := if cpus == "1" then enc js else enc (js.mergeSort fun p q => p.1 < q.1 || (p.1 == q.1 && p.2 ≤ q.2))
       let implJobs : List (Nat × Nat) := (decStrs impl).filterMap fun t =>
